@@ -35,7 +35,7 @@ def gen_entry(rng, targets):
     params = None
     pform = rng.choice(['sp', 'fn'])
     if tgt in ('fail', 'succeed') and rng.random() < 0.4:
-        # NB `fail(msg=123)` (function form without any blank) is NOT generated: _parse_cmd_and_input only parses
+        # NB (unchanged by the repo fixes) `fail(msg=123)` (function form without any blank) is NOT generated: _parse_cmd_and_input only parses
         # strings that contain a blank, so the whole text becomes the task name, and the on-clause schema's oneOf
         # rejects it as a bare string ("valid under each of"); both are rejections (HTTP 400), see docs/C14.md
         params = rng.choice(['msg="boom"', 'msg=<% $.x %>', 'msg=123']) if pform == 'sp' else \
